@@ -56,7 +56,8 @@ var (
 	c03FailMu sync.Mutex
 	c03Fails  []string
 	// probes that took more than 2 s of real time on the virtual-time connection (the handler sleeps
-	// instead of reading): after a dozen the generators stop, so that the run ends and reports
+	// instead of reading): after a handful — and only when an oracle failure is already recorded — the
+	// generators stop, so that the run ends and reports
 	c03Slow atomic.Int32
 )
 
@@ -205,7 +206,7 @@ func c03Failed() bool {
 
 // c03GiveUp: the generators may stop early only when the run already has an oracle failure to report
 // (a handler that sleeps makes every further probe take seconds); slowness alone never reduces coverage.
-func c03GiveUp() bool { return c03Slow.Load() >= 12 && c03Failed() }
+func c03GiveUp() bool { return c03Slow.Load() >= 5 && c03Failed() }
 
 // c03StallLimit: on the virtual-time connection every read is answered at once, so a handler that does
 // what the property says needs microseconds of real time per probe. A probe that takes longer than this
@@ -928,7 +929,7 @@ func TestVerifC03(t *testing.T) {
 			defer wg.Done()
 			for c := range chans[wi] {
 				if c03GiveUp() {
-					out.Count("skipped-after-12-slow-probes-and-an-oracle-failure")
+					out.Count("skipped-after-5-slow-probes-and-an-oracle-failure")
 					continue
 				}
 				c.world = wi
@@ -941,7 +942,7 @@ func TestVerifC03(t *testing.T) {
 		wi := wi
 		gens[wi] = &c03Gen{r: vlib.NewRand(fmt.Sprintf("C03/gen%d", wi)), w: worlds[wi], clients: clientsOf[wi], emit: func(c c03Case) {
 			if c03GiveUp() {
-				out.Count("skipped-after-12-slow-probes-and-an-oracle-failure")
+				out.Count("skipped-after-5-slow-probes-and-an-oracle-failure")
 				return
 			}
 			chans[wi] <- c
